@@ -38,7 +38,7 @@ CFG = {
             "extract_query_p of Params.v on the wire texts gives the same accept/refuse, declared headers present. "
             "Group document: each operation's published parameters (name, in, required, description, schema "
             "structurally), components, response entry (key, description, content shape, header names), error "
-            "entries and the Error component, requestBody content type against doc_params / doc_response / "
+            "entries and the Error component, the nullable wrapper of an Option<T> response, requestBody content type against doc_params / doc_response / "
             "error_oschema / doc_body_ctype evaluated on the operation's field specification. Group schema2struct: "
             "seeded schemas (properties with and without required, anyOf members, single / double allOf, oneOf, not, "
             "references and references to references, enum shapes, type arrays, format) through Query<Dyn> "
@@ -90,8 +90,9 @@ CFG = {
                 "status / content type is the documented key / media type and empty-bodied kinds document no content; "
                 "every HttpError body is valid for the hand-written error schema (for all errors, ids, $ref/pattern/"
                 "format interpretations); the documented body content type passes the content-type check. The full "
-                "acceptance statement is refuted in Coq for integer/bool leaves of flattened structs (K7a) and the "
-                "nullable marker of Option<T> response types is shown lost (K7b). Relative to: schemars' and serde's "
+                "acceptance statement is refuted in Coq for integer/bool leaves of flattened structs (K7a); a body type "
+                "Option<T> with T referenceable is published as {allOf: [$ref], nullable: true}, valid for null (K7b, "
+                "repaired in /repo by 16fe29f). Relative to: schemars' and serde's "
                 "derives agreeing with their transcriptions. Correspondence on every run: the real document replayed "
                 "against a live server over 73 operations, requests built from the document alone, spec and model "
                 "evaluated in Coq on every answer (body validity by valid_oas on the real JSON), the document "
@@ -100,7 +101,9 @@ CFG = {
         "note": "partial: JSON request/response BODY validity is sampled (evaluated in Coq on real bodies), not "
                 "proved - it is C08 composed with the assumed schemars/serde agreement; parameters, statuses, content "
                 "types, the error schema and the flatten / required / description steps are proved of the model and "
-                "tied to the code by the replay. Open known findings K7a, K7b.",
+                "tied to the code by the replay. Open known finding K7a (flattened integer/bool parameters are refused "
+                "whatever their value: serde's flatten); K7b (Option<T> response documented as a bare $ref) was "
+                "repaired in /repo (16fe29f), its witness runs first on every check.",
         "technique": "Coq proof (invariant over a nested flatten tree, reuse of C08's schema semantics and C09/C10's "
                      "extractor model) + document replay against a live server with spec evaluation in Coq",
     },
